@@ -270,6 +270,21 @@ CLAIMED["C20"] = {
     "technique": _T + ": order/entropy/schedule taint classification of every unordered source to its consumer",
 }
 
+CLAIMED["C15"] = {
+    "text": "Decides, for all histories of batches at once, the clauses of 'incremental fitting replays to the same model as batch fitting / its recurrence' that are visible in the shape of the code - necessary conditions, not the statistics: "
+            "naive Bayes `fit` is `fit_with` started from the empty model (None through the shared routine, dataset handed through), so a one-batch history and batch fitting are the same computation; "
+            "`fit_with` continues from the model it is given, reaches classes through entry().or_insert_with(default) (a class missing from a batch keeps its statistics), accumulates class counts with `+=` from the class subset's row count, and recomputes the priors for every class of the model from the accumulated counts over their sum on the same map; "
+            "the variance boost (epsilon) subtracted from a continued Gaussian model is added back to every class unconditionally, exactly once; "
+            "multinomial feature counts are stored unsmoothed and accumulated, alpha enters the log probabilities only; "
+            "mini-batch k-means divides the shift by the cumulative per-cluster count, incremented by one before the division, the counts handed to the update are the model's own cluster_count, and Ok / NotConverged follow `shift < tolerance`; "
+            "FTRL takes the weights before z and n are written, z gains the gradient and loses sigma*weights, n gains the squared gradient, sigma is computed before the update, a weight is exactly zero when |z| <= l1 (non-strict), and fit_with continues from the given model; "
+            "hand-written Clone impls and builder methods of the two crates carry every field, no generic-float value is narrowed to f32 and stored. "
+            "Not decided: the statistics themselves (pooled mean / variance algebra, log-probabilities, the learning-rate formula), equality of batch and incremental results as numbers, posterior arg-max (ties are decided under C20).",
+    "design_ref": "DESIGN.md section 4, C15",
+    "note": "Trusted: rustc resolution/typeck, the fact dump. Claimed late in the build (section 5 explains what changed the earlier not-applicable verdict).",
+    "technique": _T + ": delegation of batch to incremental fitting, accumulate-vs-replace of carried state, pairing of the epsilon subtraction and addition, read-before-write snapshot of the FTRL weights, canonical form of the sparsity and convergence tests",
+}
+
 CLAIMED["C17"] = {
     "text": "Decides, for all corpora and settings at once, the clauses of 'the vectorisers equal a naive count of the tokenised corpus' that are visible in the shape of the code - necessary conditions, not the recount: "
             "fitting and transforming tokenise through the same steps (the normalisation / lower-casing helper with each switch guarding its own action, tokenizer function or regex, n-gram windows with the configured range), so training and unseen documents are counted alike; "
@@ -290,7 +305,6 @@ NOT_APPLICABLE = {
     "C05": "every clause equates a returned number with a textbook formula over unbounded inputs; no pairing/ordering/agreement structure is necessary for a wrong value, and a frozen-formula matcher would fire on any algebraic refactor (DESIGN.md section 5)",
     "C06": "kernel entry values, symmetry, PSD-ness, dense/sparse agreement and the merge-replay stop rule are relations between computed floating-point values; no sound static argument in reach bounds them (the hash-order cluster numbering in the same file is decided under C20)",
     "C11": "KKT conditions and duality gaps are numerical statements about the solver's fixed point; nothing structural is necessary for them",
-    "C15": "quantifies over histories of batches and compares accumulated floating-point statistics; the recurrences are plain arithmetic with no structural invariant short of re-deriving the algebra",
 }
 
 PENDING = ["C02", "C03", "C04", "C07", "C08", "C09", "C10", "C12", "C13", "C14", "C16", "C18", "C19", "C20"]
